@@ -12,6 +12,7 @@
 #include "scen_c01.h"
 #include "scen_c13.h"
 #include "scen_c04.h"
+#include "scen_tpm12.h"
 
 int main(int argc, char **argv) {
     if (argc < 5) { fprintf(stderr, "usage: tpmdrv Cxx seed tier trace [extra]\n"); return 2; }
@@ -37,6 +38,10 @@ int main(int argc, char **argv) {
     else if (!strcmp(prop, "C01")) scen_c01(thorough ? 40 : 5, 25, thorough ? 1500 : 400);
     else if (!strcmp(prop, "C13")) scen_c13(thorough ? 2500 : 250, thorough ? 3 : 1);
     else if (!strcmp(prop, "C04")) scen_c04(thorough ? 60 : 6, thorough ? 400 : 150);
+    else if (!strcmp(prop, "C18")) scen_c18(thorough ? 60 : 12, thorough ? 4000 : 1500);
+    else if (!strcmp(prop, "C19")) scen_c19(thorough ? 200 : 10, thorough ? 120 : 80);
+    else if (!strcmp(prop, "C20")) scen_c20(thorough ? 400 : 24, thorough ? 300 : 250);
+    else if (!strcmp(prop, "R12") && argc >= 6) scen_replay12(argv[5]);
     else { fprintf(stderr, "no scenario for %s\n", prop); return 2; }
     TPMLIB_Terminate();
     tr("end cmds=%ld ok=%ld faults=%ld", g_n_cmds, g_n_ok, g_fault_fired);
